@@ -11,6 +11,7 @@ Inductive op :=
   | NewMessage (nm : name) (id size : Z)
   | NewEnum
   | NewEnumValue (nm : name) (idx : Z)
+  | NewOther
   (* network *)
   | NetAddBus (n : handle) (ob : option handle)
   | NetRemoveBus (n key : handle)
@@ -53,6 +54,7 @@ Definition step (s : state) (o : op) : state * result :=
   | NewMessage nm id sz => new_message s nm id sz
   | NewEnum => new_enum s
   | NewEnumValue nm idx => new_enum_value s nm idx
+  | NewOther => new_other s
   | NetAddBus n ob => net_add_bus s n ob
   | NetRemoveBus n k => net_remove_bus s n k
   | NetRemoveAllBuses n => net_remove_all_buses s n
